@@ -111,23 +111,24 @@ fn canonical(list: &[String]) -> Vec<String> {
 struct HStats {
     states: u64,
     transitions: u64,
+    probes: u64,
     outcomes: HashSet<String>,
 }
 
 /// BFS from one initial list. `seed_set` is the canonical set; the reference output of a state is a fresh
 /// builder over the canonical list with the model's settings applied in canonical order.
-fn bfs(ctx: &Ctx, initial: &[String], ops: &[Op], st: &mut HStats, max_states: usize) {
+fn bfs(ctx: &Ctx, initial: &[String], ops: &[Op], st: &mut HStats, max_states: usize, deep_prefix: usize) {
     let canon = canonical(initial);
     let mut refcache: HashMap<Cfg, Result<String, String>> = HashMap::new();
     // key = exact real state AND reference-model state: two histories are merged only if the object states are
     // identical and the model expects the same behaviour (a setter that silently does nothing would otherwise be
     // merged with the history that never called it)
     let mut seen: HashSet<((Vec<String>, String), Cfg)> = HashSet::new();
-    let mut q: VecDeque<(RegExpBuilder, Cfg, Vec<String>)> = VecDeque::new();
+    let mut q: VecDeque<(RegExpBuilder, Cfg, Vec<String>, Vec<Op>)> = VecDeque::new();
     let b0 = RegExpBuilder::from(initial);
     seen.insert((grex::verif::builder_state(&b0), Cfg::new(0)));
-    q.push_back((b0, Cfg::new(0), vec![]));
-    while let Some((b, m, hist)) = q.pop_front() {
+    q.push_back((b0, Cfg::new(0), vec![], vec![]));
+    while let Some((b, m, hist, hops)) = q.pop_front() {
         st.states += 1;
         ctx.run.eval();
         if st.states as usize > max_states {
@@ -171,7 +172,48 @@ fn bfs(ctx: &Ctx, initial: &[String], ops: &[Op], st: &mut HStats, max_states: u
             if seen.insert(key) {
                 let mut h = hist.clone();
                 h.push(op_name(op));
-                q.push_back((nb, nm, h));
+                let mut ho = hops.clone();
+                ho.push(*op);
+                q.push_back((nb, nm, h, ho));
+            }
+        }
+        // Post-build probes. The dedup key above is (test-case vector, config): a builder that has been built is
+        // merged with one that has not, which is right only if build() leaves nothing behind. That is the very
+        // thing under test, so it is not assumed: from every state the history is REPLAYED on a brand-new builder,
+        // build() is called, then every sequence of up to `post_depth` further operations, then build() again --
+        // compared with the fresh canonical build for the settings the model expects.
+        let post_depth = if hops.len() <= deep_prefix { 2 } else { 1 };
+        let mut suffixes: Vec<Vec<Op>> = ops.iter().map(|o| vec![*o]).collect();
+        if post_depth == 2 {
+            for a in ops {
+                for c in ops {
+                    suffixes.push(vec![*a, *c]);
+                }
+            }
+        }
+        for suf in &suffixes {
+            st.transitions += suf.len() as u64 + 1;
+            st.probes += 1;
+            let mut x = RegExpBuilder::from(initial);
+            let mut mm = Cfg::new(0);
+            let mut ok = true;
+            for op in hops.iter().chain([Op::Build].iter()).chain(suf.iter()) {
+                if apply(op, &mut x, &mut mm).is_err() {
+                    ok = false;
+                    break;
+                }
+            }
+            if !ok {
+                continue;
+            }
+            let expect = refcache.entry(mm).or_insert_with(|| fresh_thread_build(mm, &canon)).clone();
+            let got = std::panic::catch_unwind(std::panic::AssertUnwindSafe(move || x.build())).map_err(panic_msg);
+            if got != expect {
+                let mut h = hist.clone();
+                h.push("build".into());
+                h.extend(suf.iter().map(op_name));
+                let sig = format!("history:build-after-earlier-build-differs-from-fresh last_op={}", op_name(suf.last().unwrap()));
+                ctx.run.violation(viol("C10", "determinism", sig, initial, &mm, got.as_deref().unwrap_or("<panic>"), json!({"history": h, "observation": "build", "expected": expect.clone().unwrap_or_else(|e| format!("<panic {e}>")), "canonical_list": canon})));
             }
         }
     }
@@ -228,13 +270,15 @@ fn h_engine(ctx: &Ctx) {
         }
     }
     let tot = Mutex::new((0u64, 0u64, 0usize));
+    let probes = AtomicU64::new(0);
     let cap = if thorough { 1_500_000 } else { 150_000 };
     par_for(initials.len(), |i| {
-        let mut st = HStats { states: 0, transitions: 0, outcomes: HashSet::new() };
-        bfs(ctx, &initials[i], &ops, &mut st, cap);
+        let mut st = HStats { states: 0, transitions: 0, probes: 0, outcomes: HashSet::new() };
+        bfs(ctx, &initials[i], &ops, &mut st, cap, if thorough { 2 } else { 1 });
         ctx.run.states.fetch_add(st.states, Ordering::Relaxed);
         ctx.run.transitions.fetch_add(st.transitions, Ordering::Relaxed);
-        ctx.run.traces.fetch_add(st.states * 3, Ordering::Relaxed);
+        ctx.run.traces.fetch_add(st.states * 3 + st.probes, Ordering::Relaxed);
+        probes.fetch_add(st.probes, Ordering::Relaxed);
         for k in 0..st.states {
             ctx.run.mark_nontrivial(hash_case(&initials[i], &Cfg::with(k as u32, (k >> 32) as u32, 7)));
         }
@@ -249,11 +293,12 @@ fn h_engine(ctx: &Ctx) {
     let thr_ops: Vec<Op> = vec![Op::Flag(R), Op::Flag(G), Op::Flag(X), Op::MinRep(1), Op::MinRep(2), Op::MinRep(3), Op::MinLen(1), Op::MinLen(2), Op::MinLen(3), Op::Build, Op::CloneOp];
     let thr_inputs: Vec<Vec<String>> = vec![s(&["aabaabaab"]), s(&["xxyzxxyz", "q"]), s(&["ababab ababab", "abab"]), s(&["aaaa", "aaaaaa", "b"])];
     par_for(thr_inputs.len(), |i| {
-        let mut st = HStats { states: 0, transitions: 0, outcomes: HashSet::new() };
-        bfs(ctx, &thr_inputs[i], &thr_ops, &mut st, cap);
+        let mut st = HStats { states: 0, transitions: 0, probes: 0, outcomes: HashSet::new() };
+        bfs(ctx, &thr_inputs[i], &thr_ops, &mut st, cap, 2);
         ctx.run.states.fetch_add(st.states, Ordering::Relaxed);
         ctx.run.transitions.fetch_add(st.transitions, Ordering::Relaxed);
-        ctx.run.traces.fetch_add(st.states * 3, Ordering::Relaxed);
+        ctx.run.traces.fetch_add(st.states * 3 + st.probes, Ordering::Relaxed);
+        probes.fetch_add(st.probes, Ordering::Relaxed);
         for k in 0..st.states {
             ctx.run.mark_nontrivial(hash_case(&thr_inputs[i], &Cfg::with(k as u32, 77, 7)));
         }
@@ -264,7 +309,8 @@ fn h_engine(ctx: &Ctx) {
     });
     let t = tot.lock().unwrap();
     ctx.run.space(json!({"engine": "H (threshold histories)", "initial_lists": thr_inputs.len(), "operations": thr_ops.iter().map(op_name).collect::<Vec<_>>()}));
-    ctx.run.space(json!({"engine": "H (builder call histories, BFS, exact-state dedup on (owned test-case vector, config))", "initial_lists": initials.len(), "operations": ops.iter().map(op_name).collect::<Vec<_>>(), "states": t.0, "transitions": t.1, "distinct_reference_outputs_summed_over_initial_lists": t.2, "observations_per_state": "build, build-twice, clone-build vs fresh canonical build"}));
+    ctx.run.space(json!({"engine": "H (builder call histories, BFS, exact-state dedup on (owned test-case vector, config))", "initial_lists": initials.len(), "operations": ops.iter().map(op_name).collect::<Vec<_>>(), "states": t.0, "transitions": t.1, "distinct_reference_outputs_summed_over_initial_lists": t.2, "observations_per_state": "build, build-twice, clone-build vs fresh canonical build",
+        "post_build_probes": probes.load(Ordering::Relaxed), "post_build_probe_rule": "from every BFS state the history is replayed on a new builder, then build(), then every sequence of 1 (2 when the state's history has at most 1 (quick) / 2 (thorough) operations; always 2 in the threshold engine) further operations, then build() -- because the dedup key cannot see state that build() itself might leave behind"}));
 }
 
 // ---------------------------------------------------------------- orders
